@@ -12,7 +12,7 @@
 (*                                                                             *)
 (* Log format: functions over hosts are arrays in increasing host order; bags   *)
 (* are arrays of task objects with a count c; sets are arrays; a connection's   *)
-(* reg / owed are arrays of [stream id, request]; attempts are arrays           *)
+(* reg / owed are arrays of [stream id, request, X|P]; attempts are arrays      *)
 (* [host, connection, stream id, connection keyspace, session keyspace].        *)
 EXTENDS Driver, TraceLib
 
@@ -66,7 +66,8 @@ ReqPost(p) ==
     \A r \in Reqs :
         LET k == rq'[r]
             q == p.reqs[r] IN
-        /\ k.st = q.st /\ k.out = q.out /\ k.n = q.n /\ k.att = q.att /\ k.timer = q.timer
+        /\ k.st = q.st /\ k.out = q.out /\ k.n = q.n /\ k.att = q.att /\ k.timer = q.timer /\ k.errs = ToSet(q.errs)
+        /\ k.lc = q.lc /\ k.lid = q.lid
         /\ k.st = "open" => k.plan = q.plan
 
 Post(p) == HostPost(p) /\ ConnPost(p) /\ ReqPost(p) /\ sks' = p.sks
@@ -79,12 +80,14 @@ TraceNext ==
     /\ UNCHANGED tid
     /\ LET e == Tr[l] IN
        /\ \/ e.e = "Init"        /\ UNCHANGED vars
-          \/ e.e = "StartReq"    /\ \E sid \in Ids : StartReq(e.r, e.rot, e.x, sid)
-          \/ e.e = "Answer"      /\ \E x \in conns[e.c].owed : x[1] = e.sid /\ Answer(e.c, e.sid, x[2], e.x)
-          \/ e.e = "Drop"        /\ \E x \in conns[e.c].owed : x[1] = e.sid /\ Drop(e.c, e.sid, x[2])
-          \/ e.e = "FireTimer"   /\ FireTimer(e.r)
-          \/ e.e = "Exec"        /\ IF e.t.k = "Retry" THEN \E sid \in Ids : ExecRetry(e.t.n, sid)
-                                    ELSE ExecHost(TaskOf(e.t))
+          \/ e.e = "StartReq"    /\ \E sid \in Ids : StartReq(e.r, e.rot, e.x, e.idem, e.prep, sid)
+          \/ e.e = "Answer"      /\ \E x \in conns[e.c].owed : x[1] = e.sid /\ Answer(e.c, e.sid, x[2], x[3], e.x)
+          \/ e.e = "Drop"        /\ \E x \in conns[e.c].owed : x[1] = e.sid /\ Drop(e.c, e.sid, x[2], x[3])
+          \/ e.e = "FireTimer"   /\ \E sid \in Ids : FireTimer(e.r, sid)
+          \/ e.e = "Exec"        /\ CASE e.t.k = "Retry"     -> \E sid \in Ids : ExecRetry(e.t.n, sid)
+                                      [] e.t.k = "Reprepare" -> \E sid \in Ids : ExecReprepare(e.t.n, e.t.h, sid)
+                                      [] e.t.k = "AfterPrep" -> \E sid \in Ids : ExecAfter(TaskOf(e.t), sid)
+                                      [] OTHER               -> ExecHost(TaskOf(e.t))
           \/ e.e = "Fire"        /\ Fire(TaskOf(e.t))
           \/ e.e = "Kill"        /\ Kill(e.c)
           \/ e.e = "StatusEvent" /\ StatusEvent(e.h, e.x)
